@@ -1,5 +1,6 @@
 import DirectVerif.Gen.C05
 import DirectVerif.Props.C05
+import DirectVerif.Lemmas.C05Driver
 /-!
 # Bridge C05 — the RNG-access table generated from /repo's current source is admissible
 
@@ -38,7 +39,7 @@ theorem code_kernel_libcOk {Req Val Out : Type} (k : String × List String) (hk 
     LibcOk b (kernelProg (pyxSrandFirst k.2) v r c) := by
   have h := pyx_table_ok
   simp only [pyxTableOk, Bool.and_eq_true, List.all_eq_true] at h
-  exact C05.kernelProg_libcOk k.2 (h.2 k hk).1 b v r c hc
+  exact C05.kernelProg_libcOk k.2 (h.2 k hk).1.1 b v r c hc
 
 /-- closed world: no call reachable from a `mask_func` escaped the walk, so "no draw from a global stream anywhere
 in the reachable set" is what `table_ok` says -/
@@ -84,5 +85,19 @@ theorem code_history_globals {σ Seed Req Val Out G A : Type} (O : Ops σ Seed R
     (h : List (Op Seed Req G A)) (st : State σ Val) :
     C05.globals (run table O body st h).1 = C05.globals (run table O body st (h.filter fun op => !C05.isCall op)).1 :=
   C05.history_globals_eq_noncall table table_ok O body hb h st st rfl
+
+/-- the `.pyx` flags the driver works with, from the generated event table: all `true` -/
+def pyxFlags : List Bool := pyxEvents.map fun k => pyxSrandFirst k.2
+
+/-- **end to end for the code as it is**: with the generated site table and the generated `.pyx` events, every
+recorded call body whose indices are in range (what the correspondence feeds the driver) gives, for the same seed,
+the same symbolic output from any two states on any two instances — no hypothesis left to discharge by hand -/
+theorem code_driver_call_history_independent (g : List Int × List Int)
+    (hg : C05Driver.evsOk table.length pyxFlags.length g.2 = true) (s : Int) (i i' : Nat)
+    (st st' : State Driver.C05.Sym Driver.C05.Sym) :
+    (call table Driver.C05.symOps (Driver.C05.bodyOf pyxFlags g ()) (some s) i st).1 =
+    (call table Driver.C05.symOps (Driver.C05.bodyOf pyxFlags g ()) (some s) i' st').1 :=
+  C05Driver.driver_call_history_independent table table_ok pyxFlags
+    (C05Driver.flags_of_pyxTableOk pyxEvents pyx_table_ok) g hg s i i' st st'
 
 end DirectVerif.Bridge.C05
